@@ -397,7 +397,8 @@ func genCfgCase(r *rand.Rand, mode int) (*cfgCase, string) {
 	case g.fault("net-unparsable"):
 		conf.Network = []string{"10.0.0.0", "10.0.0.0/33", "garbage", "", "10.0.0.0/-1", "10.0.0/24"}[r.Intn(6)]
 	case g.fault("net-v6"):
-		conf.Network = []string{"fd00::/64", "::ffff:10.0.0.0/120", "2001:db8::/32"}[r.Intn(3)]
+		// (the last one is the configured network itself, written as an IPv4-mapped prefix: everything else of the configuration fits it)
+		conf.Network = []string{"fd00::/64", "::ffff:10.0.0.0/120", "2001:db8::/32", fmt.Sprintf("::ffff:%s/%d", ipS(g.netU), 96+g.bits)}[r.Intn(4)]
 	case g.fault("net-tiny"):
 		conf.Network = fmt.Sprintf("%s/%d", ipS(g.netU), 31+r.Intn(2))
 	}
@@ -553,6 +554,12 @@ func genCfgCase(r *rand.Rand, mode int) (*cfgCase, string) {
 	cc.probes = append(cc.probes, []byte{0x06, byte(r.Intn(256)), byte(r.Intn(256)), 0, 0, 9})
 	if r.Intn(6) == 0 {
 		cc.probes[2] = cc.ownMAC
+	}
+	// a hardware address of 8 or 16 octets that begins with a configured client's six: another client, no entry is its own
+	if r.Intn(3) == 0 {
+		if base := pool[perm[r.Intn(3)]]; len(base) < 16 { // (chaddr holds 16 octets at most)
+			cc.probes = append(cc.probes, append(append([]byte{}, base...), randBytes(r, []int{2, 16 - len(base)}[r.Intn(2)])...))
+		}
 	}
 
 	kind := "valid"
